@@ -310,23 +310,25 @@ CTX.update({"n%d" % i: i for i in range(12)})
 NAME_ARGS = {"d1": "arg-d1", "ns": "arg-ns", "blk": "arg-blk", "shd": "arg-shd", "shd2": "arg-shd2", "nd2": "arg-nd2"}
 VECTORS = {
     "default": {"opts": {}, "args": {}},
-    "noloop": {"opts": {"enable_loop": False}, "args": dict(NAME_ARGS, loop="arg-loop")},
+    "noloop": {"opts": {"enable_loop": False}, "args": dict(NAME_ARGS, loop=7)},
     "strict": {"opts": {"strict_undefined": True, "imports": ["import os", "from math import pi as M_PI"], "future_imports": ["annotations"]},
                "args": dict(NAME_ARGS)},
     "filters": {"opts": {"default_filters": ["str", "trim"], "buffer_filters": ["trim"], "output_encoding": "utf-8", "encoding_errors": "replace"},
                 "args": {}},
-    "misc": {"opts": {"error_handler": "swallow", "cache_enabled": False, "preprocessor": "strip-nul", "enable_loop": False,
-                      "include_error_handler": "swallow"}, "args": dict(NAME_ARGS, loop="arg-loop")},
+    "misc": {"opts": {"error_handler": "decline", "cache_enabled": False, "preprocessor": "strip-nul", "enable_loop": False,
+                      "include_error_handler": "decline"}, "args": dict(NAME_ARGS, loop=7)},
 }
 MODULE_TEMPLATE_ACCEPTS = ("output_encoding", "encoding_errors", "format_exceptions", "error_handler", "cache_enabled", "include_error_handler")
 
 
 def build_opts(spec):
     o = dict(spec)
-    if o.get("error_handler") == "swallow":
-        o["error_handler"] = lambda context, error: True
-    if o.get("include_error_handler") == "swallow":
-        o["include_error_handler"] = lambda context, error: True
+    # handlers that decline (return false): the error propagates as without a handler, through the handler code path.
+    # (A handler that swallows errors would turn every exception into truncated output and blur the other findings.)
+    if o.get("error_handler") == "decline":
+        o["error_handler"] = lambda context, error: False
+    if o.get("include_error_handler") == "decline":
+        o["include_error_handler"] = lambda context, error: False
     if o.get("preprocessor") == "strip-nul":
         o["preprocessor"] = lambda text: text.replace("\x00", "")
     return o
@@ -735,7 +737,7 @@ def run_seed(run, corpus, dirs, seed, nproc, first):
     want = os.path.join(os.path.abspath(core.MAKO_SRC), "mako")
     for p, of in procs:
         try:
-            _, err = p.communicate(timeout=600)
+            _, err = p.communicate(timeout=core.tscale(600))
         except subprocess.TimeoutExpired:
             p.kill()
             raise MachineryError("child process timed out")
